@@ -83,8 +83,8 @@ def run(tier, seed, t0):
         flash = pages * 1024
         for n in list(range(flash + 1, flash + 1026)) + [2 * flash, flash + (1 << 20), flash + (1 << 20) + 1]:
             items.append(('oversize_case', dict(pages=pages, length=n)))
-    codes = [3, 4, 6, 7, 8] if tier == 'quick' else list(range(1, 16))
-    maxp = 4 if tier == 'quick' else 16
+    codes = list(range(1, 16))
+    maxp = 5 if tier == 'quick' else 16
     for npages in range(1, maxp + 1):
         steps = [(k, i) for k in ('erase', 'setaddr', 'write') for i in range(npages)]
         for lenient in (False, True):
